@@ -211,7 +211,9 @@ def run_check(pid, cfg, tier, seed, jobs, work, t_start):
                     msg = json.load(open(path)).get("message", "")
                 except Exception:
                     pass
-                violations.append((sub, keep_replay(pid, path), msg))
+                kept = keep_replay(pid, path)
+                if not any(v[1] == kept for v in violations):
+                    violations.append((sub, kept, msg))
         elif "WARNING: DATA RACE" in out and cfg.get("race"):
             # a race report without a property failure: save the report as the replay file
             d = os.path.join(ROOT, "replays", pid, "found")
